@@ -22,13 +22,13 @@ from vf.c16_runner import GROUPS, LETTERS
 LEVEL = "exploration"
 EXHAUSTIVE = {"quick": False, "thorough": False}
 RULE = (
-    "alphabet of 66 parameterised operations (Jacobi with different h / coefficients on one object, MG with scalar and "
+    "alphabet of 69 parameterised operations (Jacobi with different h / coefficients on one object, MG with scalar and "
     "array coefficients, H1 regularisation with the default, an explicit Jacobi and an explicit MG solver, different mu / "
     "omega / shapes / RGB, split-Bregman TVD default / explicit solver / ell, tvd front-end, Anderson sequences crossing "
     "restart boundaries, Newton / Bregman / adaptive-Bregman objects with direct, AMG and CG back-ends (with and without "
     "Anderson) on successive input pairs). quick: every operation alone (twice, determinism check), all ordered pairs "
     "inside each state-sharing group (objects or the library's default solver instance), 120 sampled cross-group pairs and "
-    "100 sampled histories of length 3..4; thorough: all 4356 ordered pairs, all ordered triples inside groups and 1500 "
+    "100 sampled histories of length 3..4; thorough: all 4761 ordered pairs, all ordered triples inside groups and 1500 "
     "sampled histories of length 3..4. distinct = history; non-trivial = history has >= 2 calls"
 )
 TOLERANCES = {"result digests": "bitwise (sha1 of dtype, shape and bytes of the full result array); single-threaded BLAS, PYTHONHASHSEED=0"}
@@ -122,7 +122,14 @@ def run_history(hist, run_dir, tag):
         code = 1
         try:
             signal.alarm(600)
+            import random as _random
+
             import darsia
+
+            # a fresh interpreter seeds its global generators from the operating system; the forked copy must not
+            # inherit the parent's generator state instead
+            np.random.seed(None)
+            _random.seed()
 
             from vf import c16_runner
             from vf.events import digest
@@ -189,6 +196,11 @@ def known_key(op, earlier):
         return "C16:jacobi_caches_diagonal"  # MG's smoother is a Jacobi instance updated through update_params
     if g == "mg_het" and prev_same_group:
         return "C16:heterogeneous_mg_degrades_own_coefficients"
+    # pyamg's multilevel set-up (more than ~100 unknowns) draws its test vectors from numpy's global generator, so an
+    # AMG / AMG-preconditioned solve depends on how many such set-ups (or re-seedings) happened before in the process
+    RNG_USERS = ("w_bregman_amg_multilevel_A", "w_bregman_amg_multilevel_B", "w_newton_cg_multilevel_A", "w_bregman_amg_custom")
+    if op in RNG_USERS[:3] and any(e in RNG_USERS for e in earlier):
+        return "C16:amg_setup_draws_from_global_rng"
     return None
 
 
@@ -210,7 +222,9 @@ def finalize(spec, R, run_dir):
             ref.setdefault(e["op"], e["digest"])
     for op in ref:
         if op in nondet:
-            R.skip("operation_not_reproducible_alone:" + op)
+            # the same call, issued first in two fresh processes, gave two different results
+            R.check(False, "alone_reproducible", {"op": op, "what": "results of the same first call differ between fresh processes"},
+                    key="C16:amg_setup_draws_from_global_rng" if op in ("w_bregman_amg_multilevel_A", "w_bregman_amg_multilevel_B", "w_newton_cg_multilevel_A") else None, group=op)
         else:
             R.ok("alone_reproducible")
     for it in items:
@@ -235,7 +249,7 @@ def finalize(spec, R, run_dir):
 
 MANIFEST = {
     "technique": "offline history checker over boundary logs recorded in one fresh interpreter per call history; sequential specification 'a call is a function of its own arguments' (bitwise result digests)",
-    "level_text": "Each call history over an alphabet of 66 parameterised operations runs in its own fresh interpreter, which logs the full digest of every returned array; the offline checker requires every call, at every position of every history, to equal the same call issued alone in a fresh interpreter (reference runs are made twice to establish determinism). quick covers all ordered pairs inside every state-sharing group plus sampled cross-group pairs and longer histories; thorough all 4356 ordered pairs, in-group triples and 1500 longer histories.",
+    "level_text": "Each call history over an alphabet of 69 parameterised operations runs in its own fresh interpreter, which logs the full digest of every returned array; the offline checker requires every call, at every position of every history, to equal the same call issued alone in a fresh interpreter (reference runs are made twice to establish determinism). quick covers all ordered pairs inside every state-sharing group plus sampled cross-group pairs and longer histories; thorough all 4761 ordered pairs, in-group triples and 1500 longer histories.",
     "level_note": "Bitwise comparison presumes single-threaded BLAS and fixed hash seed (set by the harness); histories longer than two calls are sampled; the alphabet fixes the parameter values that are contrasted.",
     "design_ref": "DESIGN.md section 3, C16",
 }
